@@ -207,18 +207,26 @@ func runJSONPos(rep *vh.Report) {
 		}
 		var got int
 		var desc string
+		var obs observation
+		name := []string{"doc.json", "doc.json", "", "a b/c.json"}[r.Intn(4)]
 		res := vh.Recover(func() string {
-			got, desc = errPos(jdoc.New("doc.json", b).Check())
-			return ""
+			err := jdoc.New(name, b).Check()
+			got, desc = errPos(err)
+			obs = observe(err)
+			return obs.panics
 		})
-		in := fmt.Sprintf("json.New(\"doc.json\", %q).Check()", b)
+		in := fmt.Sprintf("json.New(%q, %q).Check()", name, b)
 		rep.Case("json "+string(b), true)
 		if res != "" {
 			rep.AddDiff(vh.Diff{Component: "C17-json-pos", Input: in, Impl: res, Model: fmt.Sprintf("ParsingError at %d", want)})
 			continue
 		}
-		if got != want {
+		if got != want || !obs.positioned {
 			rep.AddDiff(vh.Diff{Component: "C17-json-pos", Input: in, Impl: desc, Model: fmt.Sprintf("position %d (first byte that cannot continue the text; last byte when the text ends early: %v)", want, early)})
+			continue
+		}
+		if cm := renderComplaint(obs, name, b); cm != "" {
+			rep.AddDiff(vh.Diff{Component: "C17-json-pos", Input: in, Impl: cm + " | " + obs.String(), Model: fmt.Sprintf("the message shows file %q, the line, left-trimmed source line and caret of offset %d", name, want)})
 		}
 	}
 }
